@@ -577,3 +577,5 @@ def run(ctx):
     ctx.run_rule("R20.7", "counted failures reach the exit status: every increment of the per-document failed count passes `total += count` before the next document / the exit decision [E-PATH must-pass]", r20_7, floor=3)
     ctx.run_rule("R20.5", "exit mapping: Err(ValidationFailedError) iff count_failed > 0; main: 50 / 1 / SUCCESS; no process::exit [E-SITE, E-TABLE]", r20_5, floor=5)
     ctx.run_rule("R20.8", "every document is executed: no `continue` in the documents loop bypasses execute_all, except on emptiness of the accumulated prepend+own+append list [E-PATH must-pass]", r20_8, floor=1)
+    from . import c14
+    ctx.run_rule("R20.9", "executor / test command contract: ExecutionError::Timeout is constructed only in the arm of an output whose exit status is Timeout - the command counts one failure per such output, so exit 50 follows (shared with C14 R14.4) [E-PATH]", c14.r14_4, floor=4)
